@@ -81,10 +81,17 @@ def run_case(ck, desc):
         if sim.SOLVER["nonzero_info"]:
             ck.violation("non-converged-solve-accepted", {"nonzero_info": sim.SOLVER["nonzero_info"]}, desc)
 
-    # monitor 2: state-based residual with a bracketed mesh constant
-    r = sim.step_residuals(res, desc["cls"], t, pp, m_i, m_f)
+    return judge_steps(ck, desc, desc["cls"], res, t, pp, m_i, m_f, calls)
+
+
+def judge_steps(ck, desc, cls, res, t, pp, m_i, m_f, calls=0):
+    """Monitor 2: state-based residual with a bracketed mesh constant (driver and pytest workload)."""
+    nt, nx = pp.shape
+    r = sim.step_residuals(res, cls, t, pp, m_i, m_f)
     ck.count("steps_checked", nt - 1)
     ck.count("rows_checked", r["n_rows"])
+    if "alpha_lookup_vs_library" in r:
+        ck.note_max("harness diffusivity lookup vs library alpha_scaled (rel)", r["alpha_lookup_vs_library"])
     ck.count("rows_constraining_mesh_constant", r["n_constraining"])
     lo, hi = r["bracket"]
     nontrivial = r["n_constraining"] >= 3
@@ -94,7 +101,7 @@ def run_case(ck, desc):
         ck.violation("one-mesh-constant", {"bracket": [lo, hi], "c_hat": r["c_hat"], "nx": nx}, desc)
     if nontrivial and lo <= hi and np.isfinite(lo) and np.isfinite(hi) and hi > 0:
         ck.note_max("widest_relative_bracket", (hi - lo) / abs(hi))
-        nominal = float(nx**2 if desc["cls"] == "single" else (nx - 1) ** 2)
+        nominal = float(nx**2 if cls == "single" else (nx - 1) ** 2)
         ck.count("bracket_contains_nominal_1/h^2" if lo <= nominal <= hi else "bracket_excludes_nominal_1/h^2")
     return nontrivial, {"nx": nx, "nt": nt, "bracket": [lo, hi], "worst_ratio": r["worst_ratio"], "solver_calls": calls, "max_eta": sim.SOLVER["max_eta"]}
 
@@ -107,6 +114,11 @@ def finalize_shard(ck):
 
 
 def finalize(ck):
+    if ck.tier == "thorough":
+        # the repository's own tests as an additional monitored workload (DESIGN section 4)
+        from vf import pytest_monitors
+
+        pytest_monitors.run_repo_tests_under_monitors(ck, PID)
     if ck.monitors.get("contract_evaluations.simulate", 0) == 0:
         ck.inconclusive_because("the postcondition on simulate never fired")
     if ck.monitors.get("solver_calls_seen", 0) == 0:
